@@ -145,7 +145,7 @@ class ClassParser(BaseParser):
                     global_vars=global_vars,
                     forward_refs=self.forward_refs,
                     options=self.options,
-                    force_clear_refs=self.is_local,
+                    force_clear_refs=self.force_clear_refs,
                     bound=self.bound,
                     **self.kwargs
                 )
@@ -193,7 +193,7 @@ class ClassParser(BaseParser):
                     global_vars=global_vars,
                     forward_refs=self.forward_refs,
                     options=self.options,
-                    force_clear_refs=self.is_local,
+                    force_clear_refs=self.force_clear_refs,
                     bound=self.bound,
                     **self.kwargs
                 )
